@@ -732,7 +732,17 @@ def host_getattr(I, obj, name):
         if name == "__name__":
             return obj.name
         if obj.name == "dict" and name == "fromkeys":
-            return native(lambda I_, a, k: {x: (a[1] if len(a) > 1 else None) for x in I_.run(I_.iterate(a[0]))})
+            def fromkeys(I_, a, k):
+                keys = list(I_.run(I_.iterate(a[0])))
+                if any(isinstance(x, Sym) for x in keys):
+                    # symbolic keys: equal values are ONE key - one representative per value in order of first occurrence,
+                    # forking on equality (as set() does); the representatives are pairwise distinct on the path
+                    keys = I_.make_set(keys).items
+                else:
+                    for x in keys:
+                        I_.check_hashable(x)
+                return {x: (a[1] if len(a) > 1 else None) for x in keys}
+            return native(fromkeys)
         if obj.name == "object" and name == "__setattr__":
             def osa(I_, a, k):
                 a[0].attrs[a[1]] = a[2]
